@@ -631,6 +631,42 @@ static void xml_deep_eval(uint64_t idx, void *ctx) {
     free(w);
 }
 
+/* deep JSON: nesting far beyond cJSON's 1000-level limit in six shapes, among them an empty / one-element container in front
+ * of every nested one.  The parse has to end (refused at the limit) - a parser whose depth count gets out of step with its
+ * recursion accepts such documents and, deep enough, dies of stack exhaustion (added after a seeded change in which every
+ * empty array lowered the count by two) */
+static const char *json_deep_kind[6] = {"[ nested in [",           "{\"a\": nested in {\"a\":", "an empty array in front of every nested array: [[],[[],[ ...",
+                                        "an empty object member in front of every nested object", "[1, in front of every nested array", "alternating [ and {\"a\":"};
+static uint64_t json_deep_total(void) { return 6 * 4; }
+static void json_deep_eval(uint64_t idx, void *ctx) {
+    (void)ctx;
+    BEE_ITEM(idx);
+    static const size_t depths[4] = {999, 1001, 20000, 200000};
+    unsigned kind = (unsigned)(idx % 6);
+    size_t depth = depths[idx / 6];
+    size_t cap = depth * 16 + 16, n = 0;
+    uint8_t *w = (uint8_t *)malloc(cap);
+    char *close = (char *)malloc(depth + 1);
+    for (size_t i = 0; i < depth; ++i) {
+        int obj = kind == 1 || kind == 3 || (kind == 5 && (i & 1));
+        if (kind == 2) memcpy(w + n, "[[],", 4), n += 4;
+        else if (kind == 3) memcpy(w + n, "{\"e\":{},\"a\":", 12), n += 12;
+        else if (kind == 4) memcpy(w + n, "[1,", 3), n += 3;
+        else if (obj) memcpy(w + n, "{\"a\":", 5), n += 5;
+        else w[n++] = '[';
+        close[i] = obj ? '}' : ']';
+    }
+    w[n++] = '0';
+    for (size_t i = depth; i-- > 0;) w[n++] = (uint8_t)close[i];
+    if (v_replay_token) v_out("INFO case %s: parser=json %s, %zu levels, input %zu bytes", v_replay_token, json_deep_kind[kind], depth, n);
+    V_COUNT("json_deep_cases", 1);
+    struct blk b = blk_new(w, n);
+    json_once(b.p, n, w);
+    blk_free(&b);
+    free(w);
+    free(close);
+}
+
 /* =========================================================================================================
  *  URI, query string, percent-decoding
  * ========================================================================================================= */
@@ -1281,6 +1317,7 @@ int main(int argc, char **argv) {
     REG("cbor_head", cbor_head_total, cbor_head_eval, 10);
     REG("cbor_deep", cbor_deep_total, cbor_deep_eval, 30);
     REG("xml_deep", xml_deep_total, xml_deep_eval, 30);
+    REG("json_deep", json_deep_total, json_deep_eval, 60);
     REG("uri_str", uri_str_total, uri_str_eval, 10);
     REG("uri_edit", uri_edit_total, uri_edit_eval, 10);
     REG("date_str", date_str_total, date_str_eval, 10);
